@@ -234,6 +234,9 @@ def report_static(ctx, r, pid, backend):
     ctx.violation(key, f'{d.name}: emitted text is not SystemVerilog: sign extension of a variable part select x[e : e+N] is emitted with a truncated select `x[e +]`: {hit[:1]}', dict(base, parser_message=r.detail, emitted_lines=hit))
   elif r.status == 'syntax':
     ctx.violation(f'{pid}:syntax:{d.name}', f'emitted text of {d.name} does not fit the grammar of the emitted subset: {r.detail[:300]}', dict(base, parser_message=r.detail, emitted_text=r.text[-3000:]))
+  elif r.status == 'portmap' and d.kind not in ('directed', 'case') and ('has no flattened port' in r.detail or 'has no port' in r.detail or 'no port of the component maps to' in r.detail):
+    cls_ = 'unexpected-port' if 'no port of the component maps to' in r.detail else 'missing-port'
+    ctx.violation(f'{pid}:flat-port-list:{cls_}', f'{d.name}: the port list of the emitted module does not match the ports of the component: {r.detail[:300]}', dict(base, emitted_text=r.text[:3000]))
   elif r.status == 'portmap':
     ctx.violation(f'{pid}:portmap:{d.name}', f'{d.name}: emitted port list does not match the component: {r.detail[:300]}', dict(base, emitted_text=r.text[:3000]))
 
